@@ -910,7 +910,12 @@ fn main() {
             large.push((shapes[i % shapes.len()], rng.range(301, MAX_SLACK as u64) as i64));
         }
     } else {
-        for shape in &shapes {
+        // every target up to +70000 for the shape the SDK itself builds (one JPEG exclusion) ...
+        for d in 301..=MAX_SLACK {
+            large.push((4, d));
+        }
+        // ... and strata + random targets for the other shapes
+        for shape in shapes.iter().filter(|s| **s != 4) {
             for d in 65_456..=65_616 {
                 large.push((*shape, d));
             }
